@@ -11,6 +11,7 @@ import (
 	tally "github.com/uber-go/tally/v4"
 	"pgregory.net/rapid"
 
+	"verifharness/internal/collide"
 	"verifharness/internal/model"
 	"verifharness/internal/pbt"
 	"verifharness/internal/rec"
@@ -402,7 +403,17 @@ func genCache(t *rapid.T) CacheCase {
 		if ap && rapid.Bool().Draw(t, "apvariant") {
 			variant = 6
 		}
+		if rapid.IntRange(0, 7).Draw(t, "zeroid") == 0 {
+			variant = 7
+		}
 		switch variant {
+		case 7: // a NON-empty set with the cache identity of the empty set (0): {x} or {a, x-a}
+			x := collide.ZeroSum()
+			bits = []uint64{x}
+			if rapid.Bool().Draw(t, "zerotwo") {
+				a := base[0]
+				bits = []uint64{a, x - a}
+			}
 		case 6: // same length, same sum, every element a member of the base, repeated elements
 			if len(bits) == 3 {
 				bits = []uint64{bits[1], bits[1], bits[1]}
@@ -432,6 +443,13 @@ func genCache(t *rapid.T) CacheCase {
 			}
 		}
 		hs := HSpec{Dur: rapid.Bool().Draw(t, "dur"), Sub: rapid.IntRange(0, 2).Draw(t, "sub")}
+		if variant == 7 {
+			for _, b := range bits {
+				if f := math.Float64frombits(b); math.IsNaN(f) || math.IsInf(f, 0) {
+					hs.Dur = true // the value reading of these bits is not a finite bound
+				}
+			}
+		}
 		for _, b := range bits {
 			if hs.Dur {
 				hs.D = append(hs.D, int64(b))
@@ -686,6 +704,12 @@ func runCache(c CacheCase) (pbt.Outcome, error) {
 	}
 	if c.Layout != 0 {
 		out.Classes = append(out.Classes, fmt.Sprintf("layout=%d", c.Layout))
+	}
+	for _, h := range c.Hists {
+		if identity(h) == 0 && len(h.V)+len(h.D) > 0 {
+			out.Classes = append(out.Classes, "identity-of-the-empty-set")
+			break
+		}
 	}
 	// non-trivial: two different specs with equal cache identity under one root
 	for i := range c.Hists {
